@@ -219,6 +219,9 @@ func (w *rewriter) term(t *gojq.Term) *gojq.Term {
 		for _, e := range t.If.Elif {
 			i.Elif = append(i.Elif, &gojq.IfElif{Cond: wrap(e.Cond), Then: wrap(e.Then)})
 		}
+		if w.on(5) && t.If.Else == nil {
+			i.Else = idQuery() // the implicit else branch made explicit (C04_if_explicit_else)
+		}
 		if w.on(5) {
 			w.count++
 		}
@@ -277,7 +280,7 @@ func c04Programs(r *Rng, n int) []string {
 	paths := []string{".a.b = 1", ".a[0] |= 2", ".[\"a\"].b += 1", ".[0] = 1", ".a = (1,2)", ".a.b |= empty", ".a //= 3", ".[1:] = [9]", ".a.b.c = .a", "(.a,.b) = 1", ".a[1:2] = [7]", ".a |= . + 1", ".. |= .", ".[-1] = 0", ".a.b -= 1", "del(.a.b)", "del(.[0])", "to_entries", "with_entries(.value |= .)", "[paths]", "[leaf_paths]", "pick(.a)", ".[\"a\"] = 1", ".a[\"b\"] = 1",
 		// regression corpus of finding F3: the message of the failing constant-path `=` reaches the output / a re-raised error
 		"try (.[0] = 1) catch (if error then 1 else 2 end)", "try (.a = 1) catch error", "try (.a.b = 1) catch (length + 1)", "[.[]? | try (.a = 1) catch .]", "(.a = 1)? // \"none\""}
-	ifs := []string{"if true then 1 else 2 end", "if . then \"a\" else \"b\" end", "if .a then 1 else 0 end", "if . == null then [] else {} end", "if .[]? then 1 else 2 end", "if . then 1 elif .a? then 2 else 3 end", "if (true,false) then 1 else 2 end", "if . then 1 end", "if empty then 1 else 2 end", "if error then 1 else 2 end", "[.[]? | if . then 1 else 0 end]", "-1", "-(1)", "-.", "-(.a)", "- 1.5", "-(1,2)", "[-1,-2]", "{a:-1}", ".[-1]", ".[-1:]", "-1 + 1", "1 - -1"}
+	ifs := []string{"if .a then . end", "[.[]? | if . then . end]", "if . then . elif .a? then . end", "if .a? then .a end", "[.[]? | if . == null then 0 end]", "path(if .a? then .a end)?", "if . then 1 end | if . then . end", "if true then 1 else 2 end", "if . then \"a\" else \"b\" end", "if .a then 1 else 0 end", "if . == null then [] else {} end", "if .[]? then 1 else 2 end", "if . then 1 elif .a? then 2 else 3 end", "if (true,false) then 1 else 2 end", "if . then 1 end", "if empty then 1 else 2 end", "if error then 1 else 2 end", "[.[]? | if . then 1 else 0 end]", "-1", "-(1)", "-.", "-(.a)", "- 1.5", "-(1,2)", "[-1,-2]", "{a:-1}", ".[-1]", ".[-1:]", "-1 + 1", "1 - -1"}
 	pools := [][]string{lits, args, recs, paths, ifs}
 	var out []string
 	for _, p := range pools {
@@ -485,6 +488,11 @@ func streamC04(c *Ctx) {
 				continue
 			}
 			c.Count("base:" + emitCase(c, p, in, nil))
+			// a second run of the SAME compiled Code on the same input: constants folded into the code (and
+			// anything else the first run could have written to) must be unchanged
+			if again := runProg(p, in, nil, 150*time.Millisecond); again.dropped == "" && obsString(again, false) != obsString(base, false) {
+				c.Violation("(c04-second-run-differs (program %s) (input %s) (first %s) (second %s))", Hexs([]byte(src)), canon(in, nil), obsString(base, false), obsString(again, false))
+			}
 			// run all variants first: R7 rewrites nothing but the constant-path `=`, so base-vs-R7 isolates
 			// the setpath shortcut (known finding F3); R2 and R0 defeat the shortcut as well and are
 			// therefore compared with R7's observation, everything else with the original's
